@@ -168,6 +168,10 @@ class BackendRegistryState:
         if has_checked_new_imports is None:
             has_checked_new_imports = [False]
 
+        # Initialize backends of newly imported modules first, such that the selection does not depend on
+        # whether an earlier lookup has already triggered their initialization
+        self._check_new_imports(has_checked_new_imports)
+
         def _get_by_tensor(tensor):
             # Find backends that support this tensor type
             backends = [backend for backend in self.backends if backend.is_supported_tensor(tensor)]
